@@ -77,4 +77,24 @@ PROPS = {
         'rule': "four generators: (1) exhaustive: every log length 0..12 x every (offset, limit) in [-2, len+2]^2 against a slice window; (2) rapid state machine over ProcessLogBuffer (size in {0,1,5,50}) with write bursts up to 130 lines, range queries, subscribe(tail)/unsubscribe/close, model = slice of all lines, invariants after every op; (3) a writer goroutine racing GetLogsAndSubscribe at a drawn scheduling offset; (4) websocket followers through api.InitRoutes (reading / disconnecting second follower). Non-trivial = a range query with offset>0, limit>0, offset+limit != len on a non-empty log, a subscription after lines were written, or a hand-over that fell inside the concurrent stream; distinct = distinct case JSON",
         'assumptions': ["the websocket handler is driven through a minimal IProject that only serves the log subscription calls", "a stalled follower is a recorded known finding and is only replayed, not generated"],
     },
+    'C07': {
+        'tests': [tst('loadeng', 'TestC07Exhaustive', 1, 1), tst('loadeng', 'TestC07Random', 250, 5000)],
+        'rule': "(1) exhaustive: every digraph (self-loops included) on 1..4 nodes, i.e. 2+16+512+65536 graphs split over the shards, each loaded 8 times for n<=3 and 2 (quick) / 8 (thorough) times for n=4 because map iteration order is a hidden input; (2) rapid: 3-9 processes, 30% edge density, planted cycles of drawn length, dangling names, replicas 2-3, disabled / foreground marks, namespaces with an admitter, requested subsets (by name) with and without no-deps, then Run() behind the fake commander comparing the launched set. Oracle: Kahn-based reference (cycle/dangling), permutation + precedence predicate on the order, reference closure for the selection. Non-trivial = cycle, dangling edge, or >= 2 edges with a proper requested subset; distinct = distinct case JSON",
+        'assumptions': ["edges use process_completed / process_started so that every selected process can be launched by the end game"],
+    },
+    'C15': {
+        'tests': [tst('loadeng', 'TestC15Merge', 400, 8000)],
+        'rule': "chains of 2-4 generated files in different directories; each file mentions each of 5 process names with probability 1/2 and each of 17 single-valued options with probability 0.22 (only non-zero values, as a zero is indistinguishable from 'not mentioned'), environment entries over 5 keys with values from a hostile alphabet (empty, '=', several '=', spaces, quotes, '#', ':'), depends_on entries on earlier-defined processes, global environment and log_length. Oracle: reference merge written from merge.md compared field by field with loader.Load([f1..fk]); metamorphic: the same chain expressed with extends (alternating relative and absolute paths) must load to the same project modulo the documented working-directory rule. Non-trivial = a process present in two files with one overridden and one surviving option; distinct = distinct case JSON",
+        'floors': {'override+survive': 0.3, 'env-value-with-=': 0.1},
+    },
+    'C16': {
+        'tests': [tst('loadeng', 'TestC16Load', 300, 6000)],
+        'rule': "1-4 processes, replicas in {unset,1,2,3,4,10,11}, global and local vars, templates (plain, PC_REPLICA_NUM, global var, local var overriding a global one) in command, working_dir, log_location, description and in exec / http probe fields (host, path, port incl. out-of-range and non-numeric), launch timeouts {unset,0,-3,1,7}; each file is loaded 6 times. Oracle: canonical JSON equal across loads; defaults; reference replica names; reference rendering with text/template per replica. Non-trivial = replicas >= 2 with PC_REPLICA_NUM in a probe field or working dir; distinct = distinct case JSON",
+        'floors': {'replicated': 0.3},
+    },
+    'C17': {
+        'tests': [tst('loadeng', 'TestC17Expand', 400, 8000), tst('loadeng', 'TestC17Launch', 150, 3000)],
+        'rule': "(1) load: values built from pieces {literal, $NAME, ${NAME}, $$} placed in command, working_dir, process and global environment values and an exec probe command; the process environment and a .env file define random subsets of four VRF_ names; dotenv on/off, disable_env_expansion on/off; oracle = reference expander on the parsed values. (2) launch: the same key defined at inherited / env_cmds (real shell command) / global / per-process level in random subsets, replicas {1,2,3,10}; oracle on the environment slice and directory handed to the commander with exec semantics (last assignment wins), PC_PROC_NAME / PC_REPLICA_NUM per replica. Non-trivial = `$$` adjacent to a reference or another `$$`, or a key defined on >= 2 levels; distinct = distinct case JSON",
+        'assumptions': ["only the documented reference forms with names [A-Z_][A-Z0-9_]* are generated", "a key defined both by env_cmds and in the global environment is not judged (the statement does not order them)"],
+    },
 }
